@@ -6,15 +6,18 @@ cd "$(dirname "$0")"
 PAT=${1:-.}
 OUT=seeded/regress.tsv
 TMP=$(mktemp)
-for d in seeded/*/; do
+one() {
+  d=$1
   s=$(basename $d)
-  echo "$s" | grep -Eq "$PAT" || continue
   id=${s%%-*}
   p=$d/patch.diff; [ -f $d/patch.rebased.diff ] && p=$d/patch.rebased.diff
   r=$(timeout 1500 ./seedtest.sh $(pwd)/$p $id quick 2>&1)
   rc=$(echo "$r" | grep -o 'exit=[0-9]*' | tail -1 | cut -d= -f2)
   sig=$(echo "$r" | grep '^--- ' | head -1 | cut -c5-160)
   [ -z "$sig" ] && sig=$(echo "$r" | grep -E "patch does not apply|BUILD-FAILED" | head -1)
-  printf "%s\t%s\t%s\t%s\n" "$s" "$id" "${rc:-?}" "$sig" | tee -a $TMP
-done
+  printf "%s\t%s\t%s\t%s\n" "$s" "$id" "${rc:-?}" "$sig"
+}
+export -f one
+# SEEDS_PAR (default 1): seeds tested at the same time
+ls -d seeded/*/ | while read d; do basename $d | grep -Eq "$PAT" && echo $d; done | xargs -P ${SEEDS_PAR:-1} -I{} bash -c 'one {}' | tee -a $TMP
 if [ "$PAT" = "." ]; then mv $TMP $OUT; else cat $TMP >> $OUT; rm -f $TMP; fi
